@@ -34,6 +34,7 @@ structure Stream where
   hasPipe : Bool         -- st.body != nil
   bodyErr : Bool         -- pipe.err != nil (END_STREAM seen, stream closed, or handler called Body.Close)
   handler : Bool         -- the handler goroutine is still running
+  note : Nat := 0        -- octets of a bodyReadMsg the handler is blocked sending on bodyReadCh (0 = none)
 deriving Repr
 
 structure St where
@@ -46,6 +47,7 @@ structure St where
   sent : Int := 0            -- Σ Length of every DATA frame received
   wu0 : Int := 0             -- Σ increments of connection-level WINDOW_UPDATEs sent
   held : Int := 0            -- octets in body pipes that a handler can still read
+  infl : Int := 0            -- octets pulled out of a pipe whose bodyReadMsg the serve loop has not received yet
   rej : Int := 0             -- Σ Length of DATA frames refused with FLOW_CONTROL_ERROR
 deriving Repr
 
@@ -63,6 +65,14 @@ inductive Ev where
   | closeBody (id : Nat)
   | exit (id : Nat)
   | rst (id : Nat)
+  /-- the handler's `pipe.Read`: octets leave the pipe, the handler blocks sending the bodyReadMsg -/
+  | pull (id n : Nat)
+  /-- the serve loop receives that bodyReadMsg: `noteBodyRead` -/
+  | deliver (id : Nat)
+  /-- `resetStream` from a stream error / stream timeout detected by the server (code CANCEL here) -/
+  | srvReset (id : Nat)
+  /-- harness op Q: pull; then a close (`how` 0 client RST_STREAM, 1 server reset, 2 none); then deliver -/
+  | readThenClose (id n how : Nat)
 deriving Repr
 
 def find (l : List Stream) (id : Nat) : Option Stream := l.find? (·.id == id)
@@ -163,6 +173,7 @@ def handlerRead (s : St) (id n : Nat) : String × List Fr × St :=
   | none => ("x", [], s)
   | some x =>
     if !x.handler then ("x", [], s)
+    else if x.note != 0 then ("rb", [], s)              -- blocked handing over the previous bodyReadMsg
     else if !x.hasPipe then ("r0", [], s)
     else if x.buf == 0 && !x.bodyErr then ("rb", [], s)
     else
@@ -182,6 +193,7 @@ def handlerClose (s : St) (id : Nat) : String × List Fr × St :=
   | none => ("x", [], s)
   | some x =>
     if !x.handler then ("x", [], s)
+    else if x.note != 0 then ("rb", [], s)
     else ("", [], { s with streams := upd s.streams { x with bodyErr := x.bodyErr || x.hasPipe } })
 
 /-- `wroteFrame` after the final response HEADERS(END_STREAM): RST_STREAM(NO_ERROR) if the client had
@@ -198,6 +210,7 @@ def handlerExit (s : St) (id : Nat) : String × List Fr × St :=
   | none => ("x", [], s)
   | some x =>
     if !x.handler then ("x", [], s)
+    else if x.note != 0 then ("rb", [], s)
     else
       let r := exitClose s x
       match find r.2.streams id with
@@ -225,6 +238,43 @@ def processHeaders (s : St) (id : Nat) (decl : Int) (endS : Bool) : List Fr × S
             hasPipe := !endS, bodyErr := false, handler := true }
         ([], { s with maxId := id, streams := s.streams ++ [x] })
 
+/-- the handler pulls up to `n` octets out of its body pipe (`pipe.Read` returns) and is about to hand
+    the bodyReadMsg to the serve loop; nothing is credited yet -/
+def handlerPull (s : St) (id n : Nat) : String × List Fr × St :=
+  match find s.streams id with
+  | none => ("x", [], s)
+  | some x =>
+    if !x.handler then ("x", [], s)
+    else if !x.hasPipe then ("r0", [], s)
+    else if x.note != 0 then ("rb", [], s)             -- still blocked on the previous notification
+    else if x.buf == 0 && !x.bodyErr then ("rb", [], s)
+    else
+      let m := min n x.buf
+      if m == 0 then ("r0", [], s)
+      else ("r" ++ toString m, [],
+            { s with streams := upd s.streams { x with buf := x.buf - m, note := m },
+                     held := s.held - m, infl := s.infl + m })
+
+/-- `noteBodyRead(st, n)` when the serve loop receives the pending bodyReadMsg: connection-level credit
+    always, stream-level only while the stream is neither half-closed(remote) nor closed -/
+def deliverNote (s : St) (id : Nat) : String × List Fr × St :=
+  match find s.streams id with
+  | none => ("", [], s)
+  | some x =>
+    if x.note == 0 then ("", [], s)
+    else
+      let m := x.note
+      let s1 := { s with conn := s.conn + m, wu0 := s.wu0 + m, infl := s.infl - m }
+      if x.st == .opn then
+        ("", [.wu 0 m, .wu id m], { s1 with streams := upd s1.streams { x with note := 0, inflow := x.inflow + m } })
+      else
+        ("", [.wu 0 m], { s1 with streams := upd s1.streams { x with note := 0 } })
+
+/-- a reset decided by the server (stream error, stream timeout): RST_STREAM, closeStream -/
+def serverReset (s : St) (id : Nat) : List Fr × St :=
+  let r := resetStream s id
+  ([.rst id 8] ++ r.1, r.2)
+
 def step (s : St) : Ev → String × List Fr × St
   | .headers id decl e => let r := processHeaders s id decl e; ("", r.1, r.2)
   | .data id dlen pad e => let r := processData s id dlen pad e; ("", r.1, r.2)
@@ -232,6 +282,17 @@ def step (s : St) : Ev → String × List Fr × St
   | .closeBody id => handlerClose s id
   | .exit id => handlerExit s id
   | .rst id => let r := processRst s id; ("", r.1, r.2)
+  | .pull id n => handlerPull s id n
+  | .deliver id => deliverNote s id
+  | .srvReset id => let r := serverReset s id; ("", r.1, r.2)
+  | .readThenClose id n how =>
+    let a := handlerPull s id n
+    if a.1 == "x" || a.1 == "rb" then a
+    else
+      let b : List Fr × St :=
+        if how == 0 then processRst a.2.2 id else if how == 1 then serverReset a.2.2 id else ([], a.2.2)
+      let c := deliverNote b.2 id
+      (a.1, a.2.1 ++ b.1 ++ c.2.1, c.2.2)
 
 def runEvs (s : St) : List Ev → St
   | [] => s
